@@ -410,3 +410,60 @@ def check_unsort(ctx, rule, module_names):
             "no value computed on argsort-ed data is indexed with the same `order` again (the inverse is out[order] = values)",
             signature="permutation applied twice " + "; ".join(t for _l, t in sites)[:140], sites=[f"line {l}: {t}" for l, t in sites],
         )
+
+
+def check_like_over_integer_grid(ctx, rule, fi):
+    """np.*_like(grid, ...) where `grid` is a local bound to np.arange / np.array / np.asarray of integer literals and
+    names only (no float literal, no dtype): with integer arguments - a default such as 14_000 is one - the grid is an
+    integer array, and an array shaped *and typed* like it truncates what is stored in it (a fractional temperature).
+    Syntactic on purpose: exact arithmetic does not tell 10 from 10.0, the source does.  Decided only for the idiom it
+    names; any other prototype is left to the buffer rule of the module."""
+    import ast
+
+    def float_free(call):
+        if any(k.arg == "dtype" for k in call.keywords):
+            return False
+        for a in list(call.args) + [k.value for k in call.keywords]:
+            for n in ast.walk(a):
+                if isinstance(n, ast.Constant) and isinstance(n.value, float):
+                    return False
+                if isinstance(n, (ast.Call, ast.Attribute, ast.Subscript, ast.BinOp)) and not (isinstance(n, ast.BinOp) and not isinstance(n.op, (ast.Div, ast.Pow))):
+                    return False  # a computed argument: its type is not visible here
+        return bool(call.args)
+
+    def np_call(n, names):
+        return isinstance(n, ast.Call) and isinstance(n.func, ast.Attribute) and n.func.attr in names and isinstance(n.func.value, ast.Name) and n.func.value.id in ("np", "numpy")
+
+    int_params = set()
+    a = fi.node.args
+    pos = list(a.posonlyargs) + list(a.args)
+    for arg, d in list(zip(pos[len(pos) - len(a.defaults):], a.defaults)) + [(k, d) for k, d in zip(a.kwonlyargs, a.kw_defaults) if d is not None]:
+        if isinstance(d, ast.Constant) and isinstance(d.value, int) and not isinstance(d.value, bool):
+            int_params.add(arg.arg)
+    grids = {}
+    for n in ast.walk(fi.node):
+        if isinstance(n, ast.Assign) and len(n.targets) == 1 and isinstance(n.targets[0], ast.Name):
+            nm = n.targets[0].id
+            v = n.value
+            if np_call(v, ("arange",)) and float_free(v):
+                names = {x.id for a_ in v.args for x in ast.walk(a_) if isinstance(x, ast.Name)}
+                grids.setdefault(nm, []).append(names <= int_params)
+            else:
+                grids.setdefault(nm, []).append(False)
+    n_sites = 0
+    for n in ast.walk(fi.node):
+        if not (np_call(n, ("full_like", "empty_like", "zeros_like", "ones_like")) and n.args and isinstance(n.args[0], ast.Name)):
+            continue
+        n_sites += 1
+        g = n.args[0].id
+        has_float_dtype = any(k.arg == "dtype" and any(t in ast.unparse(k.value) for t in ("float", "double")) for k in n.keywords) or (
+            n.func.attr == "full_like" and len(n.args) >= 3 and any(t in ast.unparse(n.args[2]) for t in ("float", "double"))
+        )
+        integer_fill = n.func.attr == "full_like" and len(n.args) >= 2 and isinstance(n.args[1], ast.Constant) and isinstance(n.args[1].value, int)
+        int_grid = bool(grids.get(g)) and all(grids[g])
+        ctx.check(
+            not int_grid or has_float_dtype or integer_fill, rule, f"{fi.qualname}:{n.func.attr}({g})", f"{fi.file}:{n.lineno}",
+            "an array allocated like the pressure grid does not take an integer type from it: the grid is written with a floating literal (np.arange(10.0, ...)), or the allocation states a float dtype",
+            signature="typed like an integer grid", grid=g,
+        )
+    return n_sites
